@@ -26,6 +26,11 @@ def floors(tier):
     return {'accepted': 4000, 'len:statement_classes': 40, 'len:dialects': 3, 'copies_checked': 4000}
 
 
+def ceilings(tier):
+    # fractions of all evaluations; the unchanged tree stays below about two thirds of each
+    return {'rejected_first_parse': 0.45}
+
+
 def _parse(sql, dialect):
     from mindsdb_sql import parse_sql
     return parse_sql(sql, dialect)
